@@ -66,6 +66,12 @@ def requests(ctx):
         seqf=lambda s: gs.seq_for(rng, s, names=("a",), complementary=True))
     add("split_objects/random", "cx_split", big[: (120 if quick else 3000)],
         seqf=lambda s: gs.seq_for(rng, s, names=("a", "b", "c"), complementary=True))
+    # (v) object level with registries: components that exist beforehand (any rotation; explicit,
+    # automatic or clashing names), unrelated complexes, split() twice, everything kept alive
+    multi = [s for s in lc.small_scope(6 if quick else 7) if "+" in s]
+    hist = [("cx_split_hist", lc.split_history(rng, rng.choice(multi))) for _ in range(900 if quick else 12000)]
+    hist += [("cx_split_hist", lc.split_history(rng, s, names=("a", "b", "c"))) for s in big[: (60 if quick else 1500)] if "+" in s]
+    batches["split_objects/histories"] = hist
     return batches, origin, small, big
 
 
@@ -93,9 +99,19 @@ def run(ctx):
                        "implementation agree")
     ctx.cov["exhaustive"] = False
     ctx.cov["partial"] = read_partial("C09") + [
-        "object level, registry histories: components that already exist beforehand under explicit or automatic "
-        "names, and the SingletonError raised when the automatic name of a new component is taken — not modelled "
-        "here (split() is checked on a fresh complex with empty registries only; see C01/C04 registry machine)"]
+        "object level with registries: ComplexS.split() on histories with pre-existing components is modelled "
+        "(Model/Loops.v split_history) and corresponds on every run, but only the refutation of the naive clause "
+        "'splitting twice yields identical objects in every history' is proved (split_twice_same_refuted: the first "
+        "run can advance ComplexS.ID so that the next automatic name is the name of another live complex); the "
+        "positive clauses (each yielded object owns its component's canonical form, SingletonError is the only "
+        "exception) are not proved on the registry machine of C01/C04"]
+
+    ctx.cov["refuted"] = [
+        "split_twice_same_full (Proofs/SplitObj.v): 'in every history, if the first split() completes, the second "
+        "yields the same objects' — refuted in the model (split_twice_same_refuted, vm_compute witness) and on the "
+        "implementation: x = ComplexS([~a, a], '()', 'c3'); c = ComplexS([~a, a, '+', ~a, a, b], '()+...', 'c2'); "
+        "list(c.split()) creates 'c1' (ComplexS.ID -> 2); the second list(c.split()) raises SingletonError because the "
+        "automatic name 'c2' is c's own name although the component x exists"]
 
     def search(diffs):
         rng = ctx.rng
@@ -122,6 +138,16 @@ def run(ctx):
                           "snippet": snippet(f["s"], f["seq"])})
         return found
 
+    # the recorded finding is replayed on every run (prints KNOWN-FINDING while it still fails)
+    from common import run_impl, Err
+    w = run_impl([("c09_split_twice_witness", None)])[0]
+    if isinstance(w, Err) or w[0] == "raised" or not w[1]:
+        ctx.violation("counterexample", {
+            "key": {"class": "split-twice-autoname-clash"}, "input": "c09_split_twice_witness",
+            "what": f"second split() of a complex whose components are all live: {w!r}",
+            "snippet": "from dsdobjects import *; a=DomainS('a',7); b=DomainS('b',7); ComplexS.ID=1; "
+                       "x=ComplexS([~a,a],list('()'),'c3'); c=ComplexS([~a,a,'+',~a,a,b],list('()+...'),'c2'); "
+                       "list(c.split()); list(c.split())"})
     conclude(ctx, res, runner, diffs, search)
 
 
